@@ -549,6 +549,40 @@ def _ac_search(ctx, model):
     expr_p, other_p, urecs_p, factory_p = params[1:5]
     tag = "P/ac"
 
+    # -- who calls the search, and with which combiner: leftover children
+    # bound to one free variable are recombined with the operator of the node
+    # being matched
+    from ..rules import resolve_handler
+    want = {"Sum": "flattened_sum", "Product": "flattened_product"}
+    n_call = 0
+    for cname, comb in want.items():
+        nd = model.nodes.get(cname)
+        res, chain, hm = resolve_handler(model, uu, nd)
+        if hm is None or hm.kind != "func":
+            raise AnalysisError(f"UnidirectionalUnifier: no handler for {cname}")
+        calls = [c for c in ast.walk(hm.node) if isinstance(c, ast.Call)
+                 and isinstance(c.func, ast.Attribute)
+                 and c.func.attr == "map_commut_assoc"]
+        if not calls:
+            continue        # this node class is not matched through the search
+        for c in calls:
+            n_call += 1
+            a = c.args[4 - 1] if len(c.args) >= 4 else next(
+                (k.value for k in c.keywords if k.arg == factory_p), None)
+            got = _u(a).split(".")[-1] if a is not None else None
+            if got not in want.values():
+                raise AnalysisError(f"{hm.owner.name}.{hm.node.name}: combiner "
+                                    f"'{got}' not recognised")
+            ctx.ob(f"S/ac/{cname}/combiner", got == comb, hm.owner.module.loc(c),
+                   f"{cname}: leftovers are recombined with {comb}"
+                   if got == comb else
+                   f"the handler {cname} nodes resolve to "
+                   f"({hm.owner.name}.{hm.node.name}) hands {got} to the search: "
+                   f"the {cname.lower()} children left over for one free variable "
+                   f"are recombined with the wrong operator (pattern a*b against "
+                   "d*e*f binds b = e + f)")
+    ctx.floor("AC search: handler call sites", n_call, 2)
+
     # -- class of the target tested before anything else
     first = fn.body[0] if not (isinstance(fn.body[0], ast.Expr) and isinstance(
         fn.body[0].value, ast.Constant)) else fn.body[1]
@@ -1201,69 +1235,71 @@ def _matchpy(ctx, model):
         n = nodes[0]
         tps = [ps for ps in handler_summaries(model, n, tmem.node)
                if ps.term == "return"]
-        if len(tps) != 1:
-            raise AnalysisError(f"ToMatchpy.{slot}: several paths")
-        rv = tps[0].retval
-        if not (rv[0] == "call" and rv[1].startswith("m.")):
-            raise AnalysisError(f"ToMatchpy.{slot}: result is not an op")
-        opname = rv[1][2:]
-        op = ops.get(opname)
-        if op is None:
-            raise AnalysisError(f"op class {opname} not found")
-        opfields = _op_fields(model, op)
-        # which node field goes into which op field
-        fwd = {}
-        for i, a in enumerate(rv[2]):
-            mf = sorted(mentioned_fields(a) | _prop_fields(a))
-            src = mf[0] if len(mf) == 1 else None
-            if a[0] == "star":
-                dst = opfields[0] if opfields else None
-            else:
-                dst = opfields[i] if i < len(opfields) else None
-            fwd[src] = dst
-        # the from-handler for that op
-        mm = None
-        own = None
-        for k in model.mro(op):
-            if isinstance(k, ClassInfo) and "_mapper_method" in k.members:
-                own = k.members["_mapper_method"]
-                break
-        node = own.node.value if own.kind == "ann" else own.node
-        mm = node.value
-        fmem = model.lookup(frm, mm)
-        if fmem is None or fmem.kind != "func":
-            pairs += 1      # reported by the from-handler rule above
-            continue
-        fps = [ps for ps in summarize(fmem.node) if ps.term == "return"]
-        frv = fps[0].retval
-        ok_cls = frv[0] == "call" and frv[1] == f"p.{n.name}"
-        back = {}
-        if ok_cls:
-            for i, a in enumerate(frv[2]):
-                attrs = sorted(_node_attrs(a))
-                src = attrs[0] if attrs else None
-                if src == "operands":
-                    src = "children"
-                dst = n.field_names[i] if i < len(n.field_names) else None
-                back[src] = dst
-        pairs += 1
-        problems = []
-        if not ok_cls:
-            problems.append(f"from-handler {mm} builds {frv[1]} instead of "
-                            f"p.{n.name}")
-        for f in n.field_names:
-            f_src = f
-            if f == "index" and "index_tuple" in fwd:
-                f_src = "index_tuple"
-            g = fwd.get(f_src)
-            if g is None:
-                problems.append(f"{n.name}.{f} is not converted")
-            elif back.get(g) != f:
-                problems.append(f"{n.name}.{f} goes into {opname}.{g}, which comes "
-                                f"back as {n.name}.{back.get(g)}")
-        ctx.ob(f"T/matchpy/roundtrip/{n.name}", not problems, where(tmem),
-               f"{n.name} <-> {opname}: fields {fwd}" if not problems else
-               "; ".join(problems), {"to": fwd, "from": back})
+        if not tps:
+            raise AnalysisError(f"ToMatchpy.{slot}: no returning path")
+        for pi, tp in enumerate(tps):
+            rv = tp.retval
+            if not (rv[0] == "call" and rv[1].startswith("m.")):
+                raise AnalysisError(f"ToMatchpy.{slot}: result is not an op")
+            opname = rv[1][2:]
+            op = ops.get(opname)
+            if op is None:
+                raise AnalysisError(f"op class {opname} not found")
+            opfields = _op_fields(model, op)
+            # which node field goes into which op field
+            fwd = {}
+            for i, a in enumerate(rv[2]):
+                mf = sorted(mentioned_fields(a) | _prop_fields(a))
+                src = mf[0] if len(mf) == 1 else None
+                if a[0] == "star":
+                    dst = opfields[0] if opfields else None
+                else:
+                    dst = opfields[i] if i < len(opfields) else None
+                fwd[src] = dst
+            # the from-handler for that op
+            mm = None
+            own = None
+            for k in model.mro(op):
+                if isinstance(k, ClassInfo) and "_mapper_method" in k.members:
+                    own = k.members["_mapper_method"]
+                    break
+            node = own.node.value if own.kind == "ann" else own.node
+            mm = node.value
+            fmem = model.lookup(frm, mm)
+            if fmem is None or fmem.kind != "func":
+                pairs += 1      # reported by the from-handler rule above
+                continue
+            fps = [ps for ps in summarize(fmem.node) if ps.term == "return"]
+            frv = fps[0].retval
+            ok_cls = frv[0] == "call" and frv[1] == f"p.{n.name}"
+            back = {}
+            if ok_cls:
+                for i, a in enumerate(frv[2]):
+                    attrs = sorted(_node_attrs(a))
+                    src = attrs[0] if attrs else None
+                    if src == "operands":
+                        src = "children"
+                    dst = n.field_names[i] if i < len(n.field_names) else None
+                    back[src] = dst
+            pairs += 1
+            problems = []
+            if not ok_cls:
+                problems.append(f"from-handler {mm} builds {frv[1]} instead of "
+                                f"p.{n.name}")
+            for f in n.field_names:
+                f_src = f
+                if f == "index" and "index_tuple" in fwd:
+                    f_src = "index_tuple"
+                g = fwd.get(f_src)
+                if g is None:
+                    problems.append(f"{n.name}.{f} is not converted")
+                elif back.get(g) != f:
+                    problems.append(f"{n.name}.{f} goes into {opname}.{g}, which comes "
+                                    f"back as {n.name}.{back.get(g)}")
+            ctx.ob(f"T/matchpy/roundtrip/{n.name}" + (f"/path{pi}" if pi else ""),
+                   not problems, where(tmem),
+                   f"{n.name} <-> {opname}: fields {fwd}" if not problems else
+                   "; ".join(problems), {"to": fwd, "from": back})
     ctx.floor("matchpy to/from pairs", pairs, 20)
     # the converters are reused across many short-lived expressions (one per
     # firing of a replacement rule): if one of them memoizes, its key must hold
